@@ -62,6 +62,15 @@ class InlinePool:
 
     imap = map
 
+    def uimap(self, f, *iterables):
+        return iter(self.map(f, *iterables))
+
+    def apipe(self, f, *a):
+        return _Ready(f(*a))
+
+    def pipe(self, f, *a):
+        return f(*a)
+
     def close(self):
         pass
 
